@@ -1435,10 +1435,18 @@ class ClientRequest(ClientRequestBase):
             ),
         )
 
-        if self.compress:
+        # Frame the body the way the head announces it: chunked=False, or a
+        # chunked/compress flag left on a request that got no Transfer-Encoding
+        # header (a body-less GET, a body cleared by update_body(None)), must
+        # not put chunk framing or a compressor trailer behind the head.
+        chunked = (
+            self.chunked
+            and "chunked" in self.headers.get(hdrs.TRANSFER_ENCODING, "").lower()
+        )
+        if self.compress and (chunked or hdrs.CONTENT_LENGTH in self.headers):
             writer.enable_compression(self.compress)
 
-        if self.chunked is not None:
+        if chunked:
             writer.enable_chunking()
         return writer
 
